@@ -27,19 +27,19 @@ CHECKS = {
          "RWMutex model mirrors sync.RWMutex (writer announces, then drains readers; announced writer blocks new readers); termination = every thread finishes in every explored schedule.",
          "DESIGN.md §3 C12"),
  "C05": ("bounded-exhaustive enumeration of RegisterPipeline inputs against the acceptance predicate, plus explicit-state BFS over call histories of the real Broker with a projection-equality oracle after every failing call",
-         "All 3906 node-type sequences of length 0..5 x missing/empty ids x empty pipeline id / event type x existing pipeline policy (about 490k cases) are decided by the real RegisterPipeline and compared with the predicate written from the statement. Failure atomicity is decided by BFS over every history up to depth 6 (7 thorough) of valid and invalid registry calls: after every failing call the user-observable projection (probe deliveries, RemoveNode outcome per id, IsAnyPipelineRegistered) taken on replayed copies must be unchanged.",
+         "All 3906 node-type sequences of length 0..5 x missing/empty ids x empty pipeline id / event type x existing pipeline policy (about 490k cases) are decided by the real RegisterPipeline and compared with the predicate written from the statement. Failure atomicity is decided by BFS over every history up to depth 7 (8 thorough) of valid and invalid registry calls: after every failing call the user-observable projection (probe deliveries, RemoveNode outcome per id, IsAnyPipelineRegistered) taken on replayed copies must be unchanged.",
          "Reference model and projection are harness code; states de-duplicated on the reflective dump of the Broker's private state.",
          "DESIGN.md §3 C05"),
  "C06": ("explicit-state BFS over call histories of the real Broker against a reference model of 'in use', states keyed on the Broker's entire private state",
-         "Every history up to depth 6 (8 thorough) over RegisterNode, RegisterPipeline (incl. overwrite and duplicated ids), RemovePipeline, RemovePipelineAndNodes, RemoveNode and probe Sends on 2 event types is executed on the real Broker; after every call its result, exactly which node objects were closed (once) and what a probe Send reaches are compared with the model 'a node is in use iff a currently registered pipeline lists it'. Found and fixed: three ways the reference count drifted (known-findings file).",
+         "Every history up to depth 7 (8 thorough) over RegisterNode, RegisterPipeline (incl. overwrite and duplicated ids), removals also with a cancelled context, RemovePipeline, RemovePipelineAndNodes, RemoveNode and probe Sends on 2 event types is executed on the real Broker; after every call its result, exactly which node objects were closed (once) and what a probe Send reaches are compared with the model 'a node is in use iff a currently registered pipeline lists it'. Found and fixed: three ways the reference count drifted (known-findings file).",
          "Interpretation fixed in DESIGN.md: 'node' is the id registration; reference model is 60 lines of maps.",
          "DESIGN.md §3 C06"),
  "C07": ("explicit-state BFS over policy sequences against a reference model, plus stateless model checking of overwrites racing with Sends",
-         "BFS over every history up to depth 6 (8 thorough) of registrations with policies {default, Allow, Deny, invalid} for node ids and a pipeline id in two event types, interleaved with removals and probe Sends: each call's error and each probe's deliveries (object generations) are compared with the model. Concurrently, 1-2 overwrites of a pipeline race with 1-2 Sends under every schedule within the bounds: each Send is processed by exactly one version, never a future one, never a superseded one after the overwriting call returned.",
+         "BFS over every history up to depth 7 (8 thorough) of registrations with policies {default, Allow, Deny, invalid} for node ids and a pipeline id in two event types, interleaved with removals and probe Sends: each call's error and each probe's deliveries (object generations) are compared with the model. Concurrently, 1-2 overwrites of a pipeline race with 1-2 Sends (per-version node objects, scheduling point inside a node) and two registrations of one id race with DenyOverwrite, under every schedule within the bounds: each Send is processed by exactly one version (never a mix), never a future one, never a superseded one after the overwriting call returned; never two successful Deny registrations.",
          "Bounds of the concurrent scenarios (preemptions, non-default switches at blocking points) are stated in the scenario names in the evidence.",
          "DESIGN.md §3 C07"),
  "C20": ("explicit-state BFS over registry histories of the real Broker with Reopen probes in every reached state, map-iteration orders explored as permutations",
-         "In every registry state reachable in <=6 (8 thorough) calls on 3 event types with shared nodes, Reopen must return nil and reach every node object of every registered pipeline, and with each node id failing in turn must return an error that carries that node's error exactly when a registered pipeline contains it. The order in which Reopen visits event types and pipelines is an explored choice.",
+         "In every registry state reachable in <=7 (9 thorough) calls on 3 event types with shared nodes, Reopen must return nil and reach every node object of every registered pipeline, and with each node id failing in turn must return an error that carries that node's error exactly when a registered pipeline contains it. The order in which Reopen visits event types and pipelines is an explored choice.",
          "Harness node objects count Reopen calls; unique error values per object; errors.Is as the 'carries' relation.",
          "DESIGN.md §3 C20"),
  "C11": ("explicit-state BFS over histories of the real gated.Filter with observation-only invariants and a side-effect-free probe on replayed copies, plus stateless model checking of concurrent Process/FlushAll/Close under the race detector",
